@@ -141,6 +141,17 @@ def engine_quirk(ex, case, ref=None):
     return None
 
 
+def polars_agg_list_quirk(case, df):
+    """Polars 1.44: inside group_by().agg() a combination of already aggregated values that contains a when/then over
+    literals (the library's floor division / modulo sign correction) is returned as one list per group instead of a scalar
+    (`coalesce(len() // 1, len() // 1)` -> [2, 2]).  Engine behaviour (DESIGN 4.15 j): a List column in the result of a
+    pipeline with a summarize."""
+    import polars as pl
+
+    return any(isinstance(d, pl.List) for d in df.schema.values()) and any(
+        s.get("verb") == "summarize" for s in case.get("steps", []))
+
+
 def sqlite_full_join_quirk(case, rv):
     """SQLite 3.40 (the only executing SQL engine here) returns rows that the WHERE clause excludes when a SELECT with a
     FULL OUTER JOIN and a WHERE is an operand of a compound SELECT inside a subquery (`SELECT * FROM (q UNION ALL q)`
@@ -312,6 +323,10 @@ def examine_pipeline(case, out: Outcome, *, backends=("polars", "sqlite"), ref_c
                 how = oracle.compare_ref(run.ref.vars[rv], df, view=view)
                 out.count(f"compared:{kind}:{how}")
             except oracle.Mismatch as mm:
+                if kind == "polars" and polars_agg_list_quirk(run.case2, df):
+                    out.count("engine_quirk:polars_agg_returns_list")
+                    run.frames.pop((kind, rv), None)
+                    continue
                 if kind == "polars" and _noopt_agrees(b.vars[rv], lambda d: oracle.compare_ref(run.ref.vars[rv], d, view=view)):
                     out.count("engine_quirk:polars_optimizer")
                     run.frames[(kind, rv)] = build.export_polars_noopt(b.vars[rv])
